@@ -75,8 +75,8 @@ func c07Body(c *mc.Ctx) {
 	tblOf := make([]int, n)
 	for i := range tblOf {
 		tblOf[i] = c.Choose(3)
-		if d := c.ChooseDev(3); d > 0 {
-			tblOf[i] = 2 + d // the re-keyed 300-row table / the table whose composite key is not in column order
+		if d := c.ChooseDev(4); d > 0 {
+			tblOf[i] = 2 + d // the re-keyed 300-row table / the table whose composite key is not in column order / the 300 rows with a renamed column
 		}
 	}
 	anc := g.Anc()
@@ -393,7 +393,7 @@ func init() {
 	register(&mc.Check{
 		ID:    "C07",
 		Level: "exploration",
-		Rule: "every commit fragment of 1..3 commits (chain, fork, merge, several roots) x every assignment of tables from {300 rows, the same + 1 trailing row (shares a block), 2 rows; as deviations: the 300 rows under a two-column key, 3 rows under a composite key not in column order} x every ancestor-closed set of commits already at the destination x every set of tables the destination already holds x every subset of the destination's full commits named as common, completely; " +
+		Rule: "every commit fragment of 1..3 commits (chain, fork, merge, several roots) x every assignment of tables from {300 rows, the same + 1 trailing row (shares a block), 2 rows; as deviations: the 300 rows under a two-column key, 3 rows under a composite key not in column order, the 300 rows with a renamed column (same blocks and block indices, another table object)} x every ancestor-closed set of commits already at the destination x every set of tables the destination already holds x every subset of the destination's full commits named as common, completely; " +
 			"crossed with up to d deviations over: max packfile size {default,1,64,4096}, a stray block present without its table, a table object present without its blocks and indices, tables requested only for the newest commit. The real ObjectSender writes packfiles, the real PackfileReader and ObjectReceiver consume them; " +
 			"source and destination stores are compared (commits, tables, blocks, block indices byte-identical; profile present; structural oracle; DiffTables(source, received) empty), and the persisted object order must put blocks before their table, the table before its commit and parents before children. " +
 			"Plus every permutation of the (up to 7) objects of a 2-commit transfer fed one by one to a fresh receiver: no commit stored without its parent, no table stored unless complete. non-trivial = at least 2 objects transferred; distinct by case description",
